@@ -48,96 +48,9 @@ Proof.
   - apply IH. intros y Hy. apply Hd. right. exact Hy.
 Qed.
 
-Lemma NoDup_map_filter : forall (st : store) f, NoDup (map fst st) -> NoDup (map fst (filter f st)).
-Proof.
-  intros st f. induction st as [|p r IH]; simpl; intro H; [constructor|]. inversion H; subst.
-  destruct (f p); simpl; [constructor|]; auto.
-  intro Hin. apply H2. apply in_map_iff in Hin. destruct Hin as [q [E Hq]]. apply filter_In in Hq. apply in_map_iff. exists q. tauto.
-Qed.
-
-(* ------------------------------------------------------------------ what a collection does to the store: a filter *)
-Definition sub_store (a b : store) : Prop := exists f, a = filter f b.
-Lemma sub_refl : forall a, sub_store a a.
-Proof. intro a. exists (fun _ => true). induction a; simpl; congruence. Qed.
-Lemma sub_trans : forall a b c, sub_store a b -> sub_store b c -> sub_store a c.
-Proof.
-  intros a b c [f ->] [g ->]. exists (fun x => g x && f x). induction c as [|x r IH]; simpl; [reflexivity|].
-  destruct (g x); simpl; [destruct (f x); simpl; congruence|exact IH].
-Qed.
-Lemma sub_remove : forall k st, sub_store (remove_key k st) st.
-Proof. intros. eexists. reflexivity. Qed.
-Lemma sub_eq : forall a b, a = b -> sub_store a b.
-Proof. intros a b ->. apply sub_refl. Qed.
-
-Lemma do_delete_sub : forall o g k r g', do_delete o g k = (r, g') -> sub_store (g_store g') (g_store g).
-Proof.
-  intros o g k [u|] g' H.
-  - rewrite (do_delete_some _ _ _ _ _ H). apply sub_remove.
-  - rewrite (do_delete_none _ _ _ _ H). apply sub_refl.
-Qed.
-
-Lemma markers_loop_sub : forall tp cutoff o ms g prot prot' g',
-  markers_loop tp cutoff o g ms prot = (prot', g') -> sub_store (g_store g') (g_store g).
-Proof.
-  intros tp cutoff o ms. induction ms as [|mp r IH]; intros g prot prot' g' H; simpl in H.
-  - inversion H; subst. apply sub_refl.
-  - destruct (do_stat o g (normalize_path tp mp)) as [st_ g1] eqn:ES. pose proof (do_stat_store _ _ _ _ _ ES) as S1.
-    destruct (negb (endswith INFLIGHT_SUFFIX (basename (normalize_path tp mp)))).
-    { apply IH in H. rewrite S1 in H. exact H. }
-    destruct (marker_targets tp o g1 (normalize_path tp mp) (basename (normalize_path tp mp))) as [T g2] eqn:ET.
-    pose proof (marker_targets_store _ _ _ _ _ _ _ ET) as S2.
-    destruct (match st_ with Some t => cutoff <=? t | None => true end).
-    { apply IH in H. rewrite S2, S1 in H. exact H. }
-    destruct (do_delete o g2 (normalize_path tp mp)) as [[u|] g3] eqn:ED; apply do_delete_sub in ED; apply IH in H;
-      rewrite S2, S1 in ED; eapply sub_trans; eauto.
-Qed.
-
-Lemma sweep_loop_sub : forall tp cutoff keep o ks g dels b dels' g',
-  sweep_loop tp cutoff keep o g ks dels = (b, dels', g') -> sub_store (g_store g') (g_store g).
-Proof.
-  intros tp cutoff keep o ks. induction ks as [|k r IH]; intros g dels b dels' g' H; simpl in H.
-  - inversion H; subst. apply sub_refl.
-  - destruct (escapes (normalize_path tp k)); [inversion H; subst; apply sub_refl|].
-    destruct (str_mem (normalize_path tp k) keep); [eapply IH; eauto|].
-    destruct (do_stat o g k) as [[t|] g1] eqn:ES; pose proof (do_stat_store _ _ _ _ _ ES) as S1.
-    2:{ apply IH in H. rewrite S1 in H. exact H. }
-    destruct (t <? cutoff).
-    2:{ apply IH in H. rewrite S1 in H. exact H. }
-    destruct (do_delete o g1 k) as [[u|] g2] eqn:ED; apply do_delete_sub in ED; apply IH in H; rewrite S1 in ED; eapply sub_trans; eauto.
-Qed.
-
-Lemma sweep_sub : forall tp grace now keep o g prefix dels b dels' g',
-  sweep tp grace now keep o g prefix dels = (b, dels', g') -> sub_store (g_store g') (g_store g).
-Proof.
-  intros tp grace now keep o g prefix dels b dels' g' H. unfold sweep in H.
-  destruct (do_listdir o g prefix) as [[ks|] g1] eqn:EL; pose proof (do_listdir_store _ _ _ _ _ EL) as S1.
-  - apply sweep_loop_sub in H. rewrite S1 in H. exact H.
-  - inversion H; subst. rewrite S1. apply sub_refl.
-Qed.
-
 Lemma gc_run_sub : forall tp grace now timeout o snaps st,
   sub_store (g_store (r_final (gc_run tp grace now timeout o snaps st))) st.
-Proof.
-  intros. unfold gc_run, gc_run_from.
-  destruct (read_all WList o (mkG 0 st []) (norm_set tp snaps)) as [[mp|] g1] eqn:RL; pose proof (read_all_store _ _ _ _ _ _ RL) as S1; cbn [g_store] in S1.
-  2:{ cbn [r_final]. apply sub_eq. exact S1. }
-  destruct (read_all WManifest o g1 (norm_set tp mp)) as [[es|] g2] eqn:RM; pose proof (read_all_store _ _ _ _ _ _ RM) as S2.
-  2:{ cbn [r_final]. apply sub_eq. congruence. }
-  destruct (load_protection tp timeout now o g2) as [[prot|] g3] eqn:LP.
-  2:{ cbn [r_final]. unfold load_protection in LP. destruct (do_listdir o g2 INFLIGHT_PATH) as [[ms|] gx] eqn:EL.
-      - destruct (markers_loop tp (now - timeout) o gx ms []); discriminate.
-      - injection LP as Eg. rewrite <- Eg. apply sub_eq. rewrite (do_listdir_store _ _ _ _ _ EL). congruence. }
-  assert (L3: sub_store (g_store g3) st).
-  { unfold load_protection in LP. destruct (do_listdir o g2 INFLIGHT_PATH) as [[ms|] gx] eqn:EL; [|discriminate].
-    destruct (markers_loop tp (now - timeout) o gx ms []) as [p gy] eqn:EM. injection LP as Ep Eg. rewrite <- Eg.
-    apply markers_loop_sub in EM. rewrite (do_listdir_store _ _ _ _ _ EL), S2, S1 in EM. exact EM. }
-  destruct (sweep tp grace now (map (normalize_path tp) es ++ prot) o g3 DATA_PREFIX []) as [[b1 d1] g4] eqn:SW1.
-  apply sweep_sub in SW1. assert (L4: sub_store (g_store g4) st) by (eapply sub_trans; eauto).
-  destruct b1; [exact L4|].
-  destruct (sweep tp grace now ((norm_set tp mp ++ norm_set tp snaps) ++ prot) o g4 MANIFESTS_PREFIX d1) as [[b2 d2] g5] eqn:SW2.
-  apply sweep_sub in SW2. assert (L5: sub_store (g_store g5) st) by (eapply sub_trans; eauto).
-  destruct b2; exact L5.
-Qed.
+Proof. intros. unfold gc_run. exact (gc_run_from_sub MARKERS_FIRST tp grace now timeout o snaps (mkG 0 st [])). Qed.
 
 (* ------------------------------------------------------------------ lifting facts along store extensions *)
 Lemma list_at_le : forall a b k ms, store_le a b -> list_at a k ms -> list_at b k ms.
